@@ -12,7 +12,7 @@ globals().update(make(
     'utilization_time == integrated operational in-process time (exact on the grid); callbacks of a kind run once '
     'per occurrence in registration order; a default work order (real Maintainer, PartProcessor subclass reporting '
     'a duration) ends exactly duration after its start hook; the cycle oracle of C06 is on as well (utilisation is only the time spent processing if a part is released after exactly its cycle of operational time). Non-trivial = at least one failure with a part in '
-    'process AND at least one maintenance shutdown with a part in process; distinct = SHA-1 of the canonical spec.',
+    'process AND at least one maintenance shutdown with a part in process; distinct = SHA-1 of the canonical spec. A quarter of the models use ordinary decimal times (cycle 1.1, maintenance at 7.3, ...): there the same identities are demanded within 1e-9 (accumulated rounding) instead of exactly.',
     lambda mon, case: any(r.fail_with_part for r in mon.refs.values()) and any(r.maint_with_part for r in mon.refs.values()),
     lambda mon, case: (['work-order-started'] if mon.m.wo_started else []),
-    quick=(400, 4), thorough=(2000, 16)))
+    quick=(400, 4), thorough=(2000, 16), noisy_p=0.25))
